@@ -85,6 +85,8 @@ func StatsFor(prop string) *Stats {
 
 func (s *Stats) Eval() { s.mu.Lock(); s.Evaluations++; s.mu.Unlock() }
 
+func (s *Stats) AddKnown(k string, n int) { s.mu.Lock(); s.Known[k] += n; s.mu.Unlock() }
+
 func (s *Stats) AddEval(n int) { s.mu.Lock(); s.Evaluations += n; s.mu.Unlock() }
 
 func (s *Stats) AddFeat(k string, n int) { s.mu.Lock(); s.Feat[k] += n; s.mu.Unlock() }
